@@ -253,7 +253,7 @@ fn unpaced_trials(cell: &Cell, rep: &mut Report) {
 pub fn run(ctx: &Ctx) -> Outcome {
     let all = cells();
     let paced: Vec<Cell> = all.iter().filter(|c| c.send_paced || c.recv_paced).cloned().collect();
-    let trials = ctx.size(8, 40) as usize;
+    let trials = ctx.size(8, 120) as usize;
     // phase 1: paced cells in parallel (lower bounds are insensitive to load)
     let mut report = run_sharded_on(paced.len(), paced.len(), |i, rep| paced_trials(&paced[i], trials, rep));
     // phase 2: everything single-threaded for the "not delayed" direction
